@@ -951,6 +951,32 @@ pub fn scale_family(thorough: bool) -> Vec<(String, &'static str, Vec<String>)> 
         out.push(("\\bfoo\\b".into(), "i", vec![format!("{} FOO {}foo", "é ".repeat(n), "x".repeat(n))]));
         out.push(("(.)\\1".into(), "is", vec![format!("{}aA", "ab".repeat(n)), format!("{}{}k", "é".repeat(n), '\u{212A}')]));
     }
+    // classes of many disjoint ASCII intervals (alternate letters: 26 intervals; alternate printable characters:
+    // 47), plain, negated and with one non-ASCII member, against every printable ASCII character
+    {
+        let alt_letters: String = ('A'..='Z').chain('a'..='z').step_by(2).collect();
+        let alt_print: String = (0x21u8..=0x7E).step_by(2).map(|b| b as char).filter(|c| !"\\]^-[".contains(*c)).collect();
+        let all_ascii: String = (0x20u8..=0x7E).map(|b| b as char).collect();
+        for set in [alt_letters, alt_print] {
+            for (open, tail, fl) in [("[", "]", ""), ("[^", "]", ""), ("[", "é]", ""), ("[^", "é]", "u"), ("[", "α]", "i"), ("[^", "]", "i")] {
+                out.push((format!("{}{}{}", open, set, tail), fl, vec![all_ascii.clone(), format!("é{}α", all_ascii)]));
+                out.push((format!("^(?:{}{}{})+$", open, set, tail), fl, vec![all_ascii.clone(), set.clone()]));
+            }
+        }
+    }
+    // caseless runs compared chunk-wise (a near miss in the middle of a 9..16-byte chunk), after one cased letter
+    for n in [8usize, 9, 12, 15, 16, 17, 24, 31, 32, 33] {
+        let run: String = (0..n).map(|i| "0123456789-:;= ".chars().nth(i % 15).unwrap()).collect();
+        let mut hs: Vec<String> = vec![format!("k{}", run), format!("K{}x", run), format!("{}x", run)];
+        for k in 0..n {
+            let mut v: Vec<char> = run.chars().collect();
+            v[k] = '#';
+            hs.push(format!("k{} {}x", v.iter().collect::<String>(), v.iter().collect::<String>()));
+        }
+        out.push((format!("k{}", run.replace('-', "\\-")), "i", hs.clone()));
+        out.push((format!("{}x", run.replace('-', "\\-")), "i", hs.clone()));
+        out.push((run.replace('-', "\\-"), "", hs.clone()));
+    }
     // literals whose multi-byte characters straddle the 16- and 32-byte chunk boundaries, forwards, in
     // lookbehinds (positive, negative, capturing) and case-insensitively
     for base in [0usize, 16] {
